@@ -1844,6 +1844,11 @@ void move_object (object_t * item, object_t * dest) {
       if (item->flags & O_DESTRUCTED)	/* marion */
         error ("*The object to be moved was destructed at call of " APPLY_INIT "()!");
 
+      /* init() of the item may have destructed this neighbour: it must not be called
+       * any more (its successor was saved above, so the walk can go on) */
+      if (ob->flags & O_DESTRUCTED)
+        continue;
+
       if (item->flags & O_ENABLE_COMMANDS)
         {
           command_giver = item;
